@@ -68,6 +68,7 @@ CAMLIGHT_XML = """<mujoco><worldbody>
 </body></worldbody></mujoco>"""
 
 TENDON_XML = """<mujoco><worldbody>
+<body pos="1 0 1"><joint type="ball"/><geom size=".1"/></body>
 <body pos="0 0 1"><joint name="j0" type="hinge" axis="0 1 0"/><geom size=".1"/>
  <body pos="0.3 0 0"><joint name="j1" type="slide" axis="1 0 0"/><geom size=".1"/>
   <body pos="0.3 0 0"><joint name="j2" type="hinge" axis="0 0 1"/><geom size=".1"/></body></body></body>
